@@ -70,6 +70,30 @@ func init() {
 			fmt.Fprintf(out, "%s %s => %s\n", ename, hex, sb.String())
 		})
 	}
+	// tree-sql : per node in pre-order "Type:hex(SQL())", X when SQL() panics
+	commands["tree-sql"] = func(args []string) {
+		eachCase(func(ename, hex string, e *entryPoint, x string) {
+			r := callEntry(e, "", x)
+			if r.panicked {
+				fmt.Fprintf(out, "%s %s => PANIC\n", ename, hex)
+				return
+			}
+			var sb strings.Builder
+			for _, ni := range allNodes(r.nodes) {
+				n := ni.node
+				sb.WriteString(typeName(n))
+				sb.WriteString(":")
+				var s string
+				if why := safely("SQL", func() { s = n.SQL() }); why != "" {
+					sb.WriteString("X")
+				} else {
+					sb.WriteString(hx(s))
+				}
+				sb.WriteString(" ")
+			}
+			fmt.Fprintf(out, "%s %s => %s\n", ename, hex, sb.String())
+		})
+	}
 	// tree-walk m o : Walk over every root with the recording visitor; prune the k-th Visit when k>0 && k%m==o (m=0: never)
 	commands["tree-walk"] = func(args []string) {
 		m, o := atoi(args[0]), atoi(args[1])
